@@ -18,13 +18,13 @@ func (p Problem) String() string { return p.Code + ": " + p.Msg }
 
 // Stats are the decoded page statistics.
 type Stats struct {
-	Present                    bool
-	Max, Min                   []byte // deprecated fields 1, 2
-	HasMax, HasMin             bool
-	NullCount, DistinctCount   int64
-	HasNull, HasDistinct       bool
-	MaxValue, MinValue         []byte // fields 5, 6
-	HasMaxValue, HasMinValue   bool
+	Present                  bool
+	Max, Min                 []byte // deprecated fields 1, 2
+	HasMax, HasMin           bool
+	NullCount, DistinctCount int64
+	HasNull, HasDistinct     bool
+	MaxValue, MinValue       []byte // fields 5, 6
+	HasMaxValue, HasMinValue bool
 }
 
 // Page is one parsed page.
